@@ -62,6 +62,9 @@ def bits(x):
     return struct.unpack('<I', struct.pack('<f', x))[0]
 
 
+NAN = float('nan')
+
+
 class ParseFail(Exception):
     pass
 
@@ -164,10 +167,10 @@ class Parser:
                 chain = f32(v + chain)
             mean = f32(chain / float(len(vals)))
             logged = from_bits(e[3])
-            if bits(mean) != bits(logged):
+            if all(v == v for v in vals) and bits(mean) != bits(logged):
                 issues.append(('ortho-mean', 'orthogonal region %d logged mean %r, sub-states reported %r (expected %r)'
                                % (sid, logged, vals, mean)))
-            return f32(hu * logged), i + 1
+            return (f32(hu * logged) if all(v == v for v in vals) else NAN), i + 1
         # composite region
         strat = n.strategy
         if mode == 'U' or (mode == 'C' and strat == 'utilitarian'):
@@ -228,6 +231,9 @@ class Parser:
         r = Resolution()
         r.head, r.kind, r.prong, r.values, r.ranks, r.rnd, r.nested = n.id, 'U', e[2], vals, None, None, nested
         found.append(r)
+        if any(v != v for v in vals):
+            issues.append(('skip', 'tainted by a nested failure'))
+            return NAN, i + 1
         if e[2] is None or e[2] >= len(vals):
             issues.append(('utilize-argmax', 'region %d: utilities %r, logged prong %r' % (n.id, vals, e[2])))
             return from_bits(e[3]), i + 1
@@ -256,6 +262,16 @@ class Parser:
         r.head, r.kind, r.values, r.ranks, r.rnd, r.nested = n.id, 'Z', us, ranks, rnd, nested
         r.leaf_only = all(self.t[c].kind == 'L' for c in n.subs)
         found.append(r)
+        if any(u != u for u in us):
+            # a nested resolution selected nothing: the value it handed up is undefined, nothing to judge here
+            issues.append(('skip', 'tainted by a nested failure'))
+            j = i + 1
+            if j < len(self.ev) and self.ev[j][0] == 'LR' and self.ev[j][1] == n.id:
+                r.prong = self.ev[j][2]
+                j += 1
+            else:
+                r.prong = None
+            return NAN, j
         contract = any(ranks[j] == top and us[j] > 0.0 for j in range(len(us))) and all(u >= 0.0 for u in us) \
             and 0.0 <= rnd < 1.0
         logged = i + 1 < len(self.ev) and self.ev[i + 1][0] == 'LR' and self.ev[i + 1][1] == n.id
@@ -272,7 +288,7 @@ class Parser:
                                'compoRequested = INVALID_PRONG' % (n.id, us, ranks)))
             else:
                 issues.append(('skip', 'out of contract'))
-            return 0.0, i + 1
+            return NAN, i + 1                 # nested: the library now reads utilities[INVALID_PRONG] — undefined
         e = self.ev[i + 1]
         r.prong = e[2]
         if int(g[1], 16) != int(e[3], 16) and e[2] is not None:
@@ -431,7 +447,9 @@ def main(argv):
     for hdr, ops in O.scenarios(path):
         tree = O.build_tree(S.parse(hdr['shape']))
         judge(hdr, ops, tree, hdr.get('config', {}), rejections, stats)
+    import collections
     print(stats.as_dict())
+    print('tags:', dict(collections.Counter(r['tag'] for r in rejections.get(PID, []))))
     for r in rejections.get(PID, [])[:int(argv[2]) if len(argv) > 2 else 5]:
         print('REJECT', r['tag'], r['what'])
         if len(argv) > 3:
